@@ -451,6 +451,10 @@ class Repo:
             if isinstance(e.value, ast.Name):
                 if e.value.id in ("self", "cls") and cls is not None:
                     return self.fold_class_const(cls, e.attr)
+                if m.imports.get(e.value.id) == ("string", None) and e.attr in (
+                        "printable", "ascii_letters", "digits", "ascii_lowercase", "ascii_uppercase", "punctuation", "whitespace", "hexdigits"):
+                    import string as _string  # stdlib constants of the analysis host
+                    return getattr(_string, e.attr)
                 r = self.resolve_name(e.value.id, m)
                 if isinstance(r, ClassInfo):
                     return self.fold_class_const(r, e.attr)
